@@ -2,6 +2,7 @@ package main
 
 import (
 	"bytes"
+	"math/rand"
 	"encoding/base64"
 	"encoding/json"
 	"fmt"
@@ -334,9 +335,12 @@ func thin[T any](xs []T, limit int, seed int64) []T {
 	if limit <= 0 || len(xs) <= limit {
 		return xs
 	}
-	step := len(xs) / limit
-	var out []T
-	for i := int(seed) % step; i < len(xs) && len(out) < limit; i += step {
+	// pseudo-random selection (a fixed stride can alias with the enumeration order)
+	r := rand.New(rand.NewSource(seed*2654435761 + int64(len(xs))))
+	perm := r.Perm(len(xs))[:limit]
+	sort.Ints(perm)
+	out := make([]T, 0, limit)
+	for _, i := range perm {
 		out = append(out, xs[i])
 	}
 	return out
@@ -662,7 +666,50 @@ func checkC16(c *CheckCtx) error {
 		}
 	}
 	c.sample(map[string]any{"source": "MC_Docs cases", "note": scs[0].Note})
+	scs = append(scs, jsonNearMiss(c)...)
 	return c.runSeq(scs)
+}
+
+// jsonNearMiss: documents that differ in as little as possible at a field no matcher covers; the
+// second must never pass against the first (C16 "unmasked fields always do", C14, C02)
+func jsonNearMiss(c *CheckCtx) []*Scenario {
+	pairs := [][2]string{
+		{`{"id":1541815603606036481}`, `{"id":1541815603606036482}`}, {`9007199254740993`, `9007199254740992`},
+		{`{"a":1.0}`, `{"a":1}`}, {`{"a":1e3}`, `{"a":1000}`}, {`{"a":"x"}`, `{"a":"x "}`}, {`[1,2]`, `[2,1]`}, {`{"a":null}`, `{}`},
+		{`{"a":"\u0041"}`, `{"a":"A"}`}, {`{"a":0}`, `{"a":-0}`}, {`{"a":[]}`, `{"a":{}}`}, {`{"a":"1"}`, `{"a":1}`},
+		{`{"t":true,"big":123456789012345678901234567890}`, `{"t":true,"big":123456789012345678901234567891}`},
+		{`{"f":0.1}`, `{"f":0.10000000000000001}`},
+	}
+	var scs []*Scenario
+	n := 0
+	for _, p := range pairs {
+		for _, api := range []string{"json", "sjson"} {
+			for dir := 0; dir < 2; dir++ {
+				n++
+				st, rc := p[dir], p[1-dir]
+				sc := &Scenario{ID: fmt.Sprintf("nm%d", n), Configs: stdConfigs(), Program: []string{"TestA"}}
+				mk := func(v *Val) []*Step {
+					return []*Step{{Op: "begin", Name: "TestA"}, {Op: "match", Name: "TestA", API: api, Cfg: "c", Val: v, Matchers: []*Matcher{{M: "any", Paths: []string{"nothing.here"}, EOMP: bp(false)}}[:n%2]}, {Op: "end", Name: "TestA"}}
+				}
+				v2 := strVal(rc)
+				if n%3 == 0 {
+					v2 = bytesVal(rc)
+				}
+				sc.Procs = append(sc.Procs, &Proc{Spec: procSpec("default"), Steps: mk(strVal(st))})
+				sc.Procs = append(sc.Procs, &Proc{Spec: procSpec([]string{"default", "ci", "color"}[n%3]), Steps: mk(v2)})
+				sc.Note = fmt.Sprintf("near-miss documents via %s: %s vs %s", api, st, rc)
+				// identities: canonical documents (with an ineffective matcher the harness supplies them)
+				for pi, pr := range sc.Procs {
+					doc := []string{st, rc}[pi]
+					cn, _ := canonJSON(doc, true)
+					pr.Steps[1].X = &Expect{VID: "j:" + shortHash([]byte(cn+"|defaultjson")), Inj: true}
+				}
+				scs = append(scs, sc)
+				c.nontrivial(sc.Note)
+			}
+		}
+	}
+	return scs
 }
 
 // ---------------------------------------------------------------- C14
@@ -808,5 +855,6 @@ func checkC14(c *CheckCtx) error {
 		}
 	}
 	c.sample(map[string]any{"document": jsonCorpus[14], "presentations": []string{respace(jsonCorpus[14])}})
+	scs = append(scs, jsonNearMiss(c)...)
 	return c.runSeq(scs)
 }
